@@ -14,8 +14,64 @@ def statement(module, name):
     return m.group(1).rstrip()
 
 
+def checked_statement(imports, module, name):
+    """the statement as Coq prints it (for lemmas proved inside a Section, whose source text lacks the section variables)"""
+    import subprocess, tempfile
+    tmp = os.path.join(COQ, "zz_check_tmp.v")
+    open(tmp, "w").write(imports.strip() + "\nSet Printing Width 120.\nSet Printing Depth 1000.\nCheck %s.%s.\n" % (module, name))
+    try:
+        p = subprocess.run(["coqc", "-Q", ".", "BCL", "-w", "-notation-overridden,-abstract-large-number", "zz_check_tmp.v"], cwd=COQ,
+                           stdout=subprocess.PIPE, stderr=subprocess.STDOUT, text=True, timeout=600)
+    finally:
+        for ext in (".v", ".vo", ".vok", ".vos", ".glob"):
+            try:
+                os.remove(os.path.join(COQ, "zz_check_tmp" + ext))
+            except OSError:
+                pass
+        try:
+            os.remove(os.path.join(COQ, ".zz_check_tmp.aux"))
+        except OSError:
+            pass
+    out = p.stdout
+    m = re.search(re.escape(module + "." + name) + r"\s*:\s*(.*)", out, re.S) or re.search(re.escape(name) + r"\s*:\s*(.*)", out, re.S)
+    if not m:
+        raise SystemExit("Check %s.%s failed:\n%s" % (module, name, out[-1500:]))
+    return " :\n  " + m.group(1).strip()
+
+
 def gen(pid, header, imports, items, tail=""):
     out = ["(* %s *)" % header.strip(), imports.strip(), ""]
+    for item in items:
+        new, module, name, comment = item[:4]
+        scope = item[4] if len(item) > 4 else None
+        if scope == "check":
+            st, scope = checked_statement(imports, module, name), None
+        else:
+            st = statement(module, name)
+        if comment:
+            out.append("(* %s *)" % comment)
+        if scope:
+            out.append("Local Open Scope %s." % scope)
+        out.append("Theorem %s%s" % (new, st if st.rstrip().endswith(".") else st + "."))
+        out.append("Proof. first [exact %s.%s | apply %s.%s]. Qed." % (module, name, module, name))
+        if scope:
+            out.append("Local Close Scope %s." % scope)
+        out.append("Print Assumptions %s." % new)
+        out.append("")
+    out.append(tail.strip())
+    open(os.path.join(COQ, "Properties", pid + ".v"), "w").write("\n".join(out) + "\n")
+
+
+MARK = "(* ==== generated additions (tools/mkprops.py, table APPEND in tools/propstable.py) ==== *)"
+
+
+def gen_append(pid, imports, items):
+    """for hand-written property files: (re)generate the section after MARK"""
+    path = os.path.join(COQ, "Properties", pid + ".v")
+    src = open(path).read()
+    if MARK in src:
+        src = src[:src.index(MARK)].rstrip() + "\n"
+    out = [src, MARK, imports.strip(), ""]
     for item in items:
         new, module, name, comment = item[:4]
         scope = item[4] if len(item) > 4 else None
@@ -30,8 +86,7 @@ def gen(pid, header, imports, items, tail=""):
             out.append("Local Close Scope %s." % scope)
         out.append("Print Assumptions %s." % new)
         out.append("")
-    out.append(tail.strip())
-    open(os.path.join(COQ, "Properties", pid + ".v"), "w").write("\n".join(out) + "\n")
+    open(path, "w").write("\n".join(out))
 
 
 if __name__ == "__main__":
@@ -40,5 +95,8 @@ if __name__ == "__main__":
     t = importlib.util.module_from_spec(spec)
     spec.loader.exec_module(t)
     for pid in sys.argv[1:]:
-        gen(pid, *t.PROPS[pid])
+        if pid in t.PROPS:
+            gen(pid, *t.PROPS[pid])
+        if pid in getattr(t, "APPEND", {}):
+            gen_append(pid, *t.APPEND[pid])
         print("wrote Properties/%s.v" % pid)
